@@ -81,6 +81,15 @@ public:
 
 private:
     struct Session {
+        Session() = default;
+        Session(const Session&) = delete;
+        Session& operator=(const Session&) = delete;
+        // The descriptor is released together with the last reference to the session (map entry,
+        // reader thread, an in-flight send), so nobody can still be using it; close_session_socket()
+        // only shuts the connection down, which is what wakes the reader.  `socket` itself is never
+        // written after the session has been published.
+        ~Session();
+
         SocketHandle socket{INVALID_SOCKET_HANDLE};
         // Held while one frame is written: send() may be called for the same peer from several
         // threads (reader threads answering requests, the tick/control threads broadcasting) and a
@@ -133,6 +142,7 @@ private:
     static bool recv_all(SocketHandle socket, std::uint8_t* buffer, std::size_t length);
     static bool set_recv_timeout(SocketHandle socket, std::chrono::milliseconds timeout);
     static void close_socket(SocketHandle socket);
+    static void shutdown_socket(SocketHandle socket);
     static void close_session_socket(const std::shared_ptr<Session>& session);
     static bool configure_socket(SocketHandle socket, bool server_mode);
     static SocketHandle create_socket();
